@@ -83,5 +83,56 @@ def sorted_symbolic(engine, it, seq, kwargs):
     return out
 
 
+def genexp_parts(it, g):
+    """(sequence, element -> frame) of a single-`for` generator expression over a symbolic sequence."""
+    from .exec import GenExp
+    node = g.node
+    if len(node.generators) != 1:
+        raise Unsupported("nested generator over a symbolic collection")
+    gen = node.generators[0]
+    seq = it.as_symbolic_iterable(getattr(g, "cached_iter", None) or it.eval(gen.iter, g.fr))
+    if not isinstance(seq, SymSeq):
+        raise Unsupported("generator over a non-sequence symbolic collection")
+
+    def frame_at(i):
+        fr2 = Frame(g.fr.module, {}, closure=g.fr)
+        it.assign_target(gen.target, seq.get(i), fr2)
+        return fr2
+    return seq, gen, frame_at
+
+
 def fold_symbolic(engine, it, name, seq, kwargs, start=0):
+    from .exec import GenExp
+    from .values import VOpt
+    ctx = it.ctx
+    if name == "next" and isinstance(seq, GenExp):
+        # first element satisfying the filters, or the default
+        s, gen, frame_at = genexp_parts(it, seq)
+        j = z3.Int(fresh_name("first"))
+        found = z3.Bool(fresh_name("found"))
+        i = z3.Int(fresh_name("ni"))
+
+        def cond_at(ix):
+            fr2 = frame_at(ix)
+            acc = True
+            for c in gen.ifs:
+                acc = it.and_(acc, it.truth(it.eval(c, fr2)))
+            return zbool(acc) if not isinstance(acc, bool) else z3.BoolVal(acc)
+        try:
+            cj = it.try_nofork(z3.And(0 <= j, j < s.length), lambda: cond_at(j))
+            ctx.assume(z3.Implies(found, z3.And(0 <= j, j < s.length, cj)))
+            ci = it.try_nofork(z3.And(0 <= i, i < s.length), lambda: cond_at(i))
+            ctx.assume(z3.ForAll([i], z3.Implies(z3.And(0 <= i, i < s.length, z3.Or(z3.Not(found), i < j)), z3.Not(ci))))
+        except Infeasible:
+            ctx.assume(z3.Not(found))
+        elem = it.eval(seq.node.elt, frame_at(j))
+        if "default" in kwargs:
+            d = kwargs["default"]
+            if d is None:
+                return VOpt(z3.Not(found), elem)
+            return it.ite_value(found, elem, d)
+        if ctx.branch(z3.Not(found), "next(): nothing found"):
+            from .interp import PyRaise
+            raise PyRaise("StopIteration")
+        return elem
     raise Unsupported(f"{name}() over a symbolic collection (needs a fold model)")
